@@ -398,4 +398,281 @@ theorem strSet_strStr (hq : QuotesOk Gen.Registry.stringQuotes) (pr : Char → B
           · left; exact hab
         rw [if_pos this, evalLit_pyRepr]; rfl
 
+
+
+
+/-! ### integers -/
+
+def IsDig (c : Char) : Prop := 48 ≤ c.toNat ∧ c.toNat ≤ 57
+
+theorem digitChar_toNat (d : Nat) (h : d < 10) : (digitChar d).toNat = 48 + d := by
+  unfold digitChar
+  have : ∀ d, d < 10 → (Char.ofNat (48 + d)).toNat = 48 + d := by decide
+  exact this d h
+
+theorem digitChar_isDig (d : Nat) (h : d < 10) : IsDig (digitChar d) := by
+  unfold IsDig; rw [digitChar_toNat d h]; omega
+
+theorem isDigit_of_isDig {c : Char} (h : IsDig c) : isDigit c = true := by
+  unfold IsDig at h
+  unfold isDigit
+  have h1 : ('0' : Char) ≤ c := by
+    show ('0' : Char).val ≤ c.val
+    have : ('0' : Char).val.toNat = 48 := by decide
+    rw [UInt32.le_iff_toNat_le]; unfold Char.toNat at h; omega
+  have h2 : c ≤ ('9' : Char) := by
+    show c.val ≤ ('9' : Char).val
+    have : ('9' : Char).val.toNat = 57 := by decide
+    rw [UInt32.le_iff_toNat_le]; unfold Char.toNat at h; omega
+  simp [h1, h2]
+
+theorem digitsVal_digits (xs : Str) (h : ∀ x ∈ xs, IsDig x) (b : Bool) (acc : Nat) :
+    digitsVal b acc xs =
+      if xs = [] then (if b then some acc else none)
+      else some (xs.foldl (fun a d => a * 10 + (d.toNat - 48)) acc) := by
+  induction xs generalizing b acc with
+  | nil => simp [digitsVal]
+  | cons c cs ih =>
+    have hc := h c (by simp)
+    simp only [digitsVal, isDigit_of_isDig hc, if_true]
+    rw [ih (fun x hx => h x (by simp [hx]))]
+    by_cases hcs : cs = []
+    · subst hcs; simp
+    · simp [hcs]
+
+theorem natDigitsRev_isDig (f n : Nat) : ∀ x ∈ natDigitsRev f n, IsDig x := by
+  induction f generalizing n with
+  | zero => simp [natDigitsRev]
+  | succ f ih =>
+    intro x hx
+    simp only [natDigitsRev, List.mem_cons] at hx
+    rcases hx with rfl | hx
+    · exact digitChar_isDig _ (by omega)
+    · split at hx
+      · simp at hx
+      · exact ih _ x hx
+
+theorem natDigitsRev_val (f n : Nat) (h : n < f) :
+    (natDigitsRev f n).foldr (fun d a => a * 10 + (d.toNat - 48)) 0 = n := by
+  induction f generalizing n with
+  | zero => omega
+  | succ f ih =>
+    simp only [natDigitsRev, List.foldr_cons]
+    rw [digitChar_toNat _ (by omega)]
+    split
+    · rename_i h0; simp; omega
+    · rename_i h0
+      rw [ih (n / 10) (by omega)]; omega
+
+theorem natDigitsRev_ne_nil (f n : Nat) : natDigitsRev (f + 1) n ≠ [] := by
+  simp [natDigitsRev]
+
+theorem natStr_isDig (n : Nat) : ∀ x ∈ natStr n, IsDig x := by
+  intro x hx
+  unfold natStr at hx
+  rw [List.mem_reverse] at hx
+  exact natDigitsRev_isDig _ _ x hx
+
+theorem natStr_ne_nil (n : Nat) : natStr n ≠ [] := by
+  unfold natStr
+  simp [natDigitsRev]
+
+theorem digitsVal_natStr (n : Nat) : digitsVal false 0 (natStr n) = some n := by
+  rw [digitsVal_digits _ (natStr_isDig n), if_neg (natStr_ne_nil n)]
+  unfold natStr
+  rw [List.foldl_reverse, natDigitsRev_val _ _ (by omega)]
+
+
+/-! ### stripping -/
+
+theorem dropWhile_id {α : Type} (p : α → Bool) (l : List α) (h : ∀ c, l.head? = some c → p c = false) :
+    l.dropWhile p = l := by
+  cases l with
+  | nil => rfl
+  | cons c cs => simp [List.dropWhile, h c rfl]
+
+theorem lstripP_id (p : Char → Bool) (s : Str) (h : ∀ c, s.head? = some c → p c = false) :
+    lstripP p s = s := dropWhile_id p s h
+
+theorem rstripP_id (p : Char → Bool) (s : Str) (h : ∀ c, s.getLast? = some c → p c = false) :
+    rstripP p s = s := by
+  unfold rstripP
+  rw [dropWhile_id p s.reverse (by intro c hc; rw [List.head?_reverse] at hc; exact h c hc)]
+  simp
+
+theorem isDig_not_intBlank {c : Char} (h : IsDig c) : isIntBlank c = false := by
+  unfold IsDig at h; unfold isIntBlank
+  simp; omega
+
+theorem all_head {P : Char → Prop} {s : Str} (h : ∀ x ∈ s, P x) {c : Char} (hc : s.head? = some c) : P c := by
+  cases s with
+  | nil => simp at hc
+  | cons a as => simp at hc; subst hc; exact h a (by simp)
+
+theorem all_last {P : Char → Prop} {s : Str} (h : ∀ x ∈ s, P x) {c : Char} (hc : s.getLast? = some c) : P c :=
+  h c (List.mem_of_getLast? hc)
+
+theorem pyInt_natStr (n : Nat) : pyInt (natStr n) = some (Int.ofNat n) := by
+  unfold pyInt
+  have hd := natStr_isDig n
+  rw [lstripP_id _ _ (fun c hc => isDig_not_intBlank (all_head hd hc)),
+      rstripP_id _ _ (fun c hc => isDig_not_intBlank (all_last hd hc))]
+  cases hs : natStr n with
+  | nil => exact absurd hs (natStr_ne_nil n)
+  | cons c cs =>
+    have hc : IsDig c := hd c (by rw [hs]; simp)
+    have h1 : c ≠ '-' := by intro e; subst e; revert hc; unfold IsDig; decide
+    have h2 : c ≠ '+' := by intro e; subst e; revert hc; unfold IsDig; decide
+    simp only
+    split
+    · rename_i heq; simp at heq; exact absurd heq.1 h1
+    · rename_i heq; simp at heq; exact absurd heq.1 h2
+    · rename_i ds _ _ 
+      rw [← hs, digitsVal_natStr]; rfl
+
+theorem pyInt_neg_natStr (n : Nat) : pyInt ('-' :: natStr n) = some (- Int.ofNat n) := by
+  unfold pyInt
+  have hd := natStr_isDig n
+  rw [lstripP_id _ _ (by intro c hc; simp at hc; subst hc; decide),
+      rstripP_id _ _ (by
+        intro c hc
+        rw [List.getLast?_cons] at hc
+        cases hl : (natStr n).getLast? with
+        | none => rw [hl] at hc; simp at hc; subst hc; decide
+        | some d => rw [hl] at hc; simp at hc; subst hc; exact isDig_not_intBlank (all_last hd hl))]
+  simp only
+  rw [digitsVal_natStr]; rfl
+
+theorem pyInt_intStr (v : Int) : pyInt (intStr v) = some v := by
+  cases v with
+  | ofNat n => exact pyInt_natStr n
+  | negSucc n =>
+    show pyInt ('-' :: natStr (n + 1)) = _
+    rw [pyInt_neg_natStr]; rfl
+
+
+
+
+/-! ### lists -/
+
+theorem splitChar_no (c : Char) (a : Str) (h : ∀ x ∈ a, x ≠ c) : splitChar c a = [a] := by
+  induction a with
+  | nil => rfl
+  | cons x xs ih =>
+    have hx := h x (by simp)
+    simp only [splitChar, if_neg hx, ih (fun y hy => h y (by simp [hy]))]
+
+theorem splitChar_append (c : Char) (a rest : Str) (h : ∀ x ∈ a, x ≠ c) :
+    splitChar c (a ++ c :: rest) = a :: splitChar c rest := by
+  induction a with
+  | nil => simp [splitChar]
+  | cons x xs ih =>
+    have hx := h x (by simp)
+    simp only [List.cons_append, splitChar, if_neg hx, ih (fun y hy => h y (by simp [hy]))]
+
+/-- a word: no blank inside, not empty -/
+def Word (e : Str) : Prop := e ≠ [] ∧ ∀ c ∈ e, isSpace c = false
+
+theorem splitWs_go_word (w rest acc : Str) (h : ∀ c ∈ w, isSpace c = false) :
+    splitWs.go (w ++ rest) acc = splitWs.go rest (w.reverse ++ acc) := by
+  induction w generalizing acc with
+  | nil => rfl
+  | cons c cs ih =>
+    have hc := h c (by simp)
+    simp only [List.cons_append, splitWs.go, hc]
+    have := ih (c :: acc) (fun x hx => h x (by simp [hx]))
+    rw [this]; simp
+
+theorem splitWs_go_words (xs : List Str) (h : ∀ e ∈ xs, Word e) (hne : xs ≠ []) :
+    splitWs.go (joinStr [' '] xs) [] = xs := by
+  induction xs with
+  | nil => exact absurd rfl hne
+  | cons e es ih =>
+    have he := h e (by simp)
+    cases es with
+    | nil =>
+      simp only [joinStr]
+      have := splitWs_go_word e [] [] he.2
+      simp only [List.append_nil] at this
+      rw [this]
+      simp only [splitWs.go]
+      have hne' : e.reverse ≠ [] := by simpa using he.1
+      simp [he.1]
+    | cons e2 es2 =>
+      simp only [joinStr]
+      rw [List.append_assoc, splitWs_go_word e _ [] he.2]
+      simp only [List.append_nil, List.cons_append, List.nil_append, splitWs.go]
+      have hsp : isSpace ' ' = true := by decide
+      have hne' : e.reverse ≠ [] := by simpa using he.1
+      simp only [hsp, if_true]
+      rw [ih (fun x hx => h x (by simp [hx])) (by simp)]
+      simp [he.1]
+
+theorem space_roundtrip_aux (hj : Gen.Registry.spaceJoin = [' ']) (he : Gen.Registry.emptyListStr = [' '])
+    (xs : List Str) (h : ∀ e ∈ xs, Word e) :
+    ListClass.set .space (ListClass.str .space xs) = xs := by
+  unfold ListClass.set ListClass.splitter ListClass.str
+  cases xs with
+  | nil => simp [he, splitWs, splitWs.go]; decide
+  | cons e es =>
+    simp only [List.isEmpty_cons, Bool.false_eq_true, if_false, ListClass.joiner, hj]
+    exact splitWs_go_words (e :: es) h (by simp)
+
+
+/-- an element a comma separated list can carry: no comma, no blank at either end -/
+def CommaElt (e : Str) : Prop := (∀ c ∈ e, c ≠ ',') ∧ lstrip e = e ∧ rstrip e = e
+
+theorem lstrip_space_cons (e : Str) : lstrip (' ' :: e) = lstrip e := by
+  unfold lstrip lstripP
+  have : isSpace ' ' = true := by decide
+  simp [List.dropWhile, this]
+
+/-- the pieces of `', '.join(xs)` split at the commas -/
+theorem splitChar_commaJoin (e : Str) (es : List Str) (h : ∀ x ∈ e :: es, CommaElt x) :
+    splitChar ',' (joinStr [',', ' '] (e :: es)) = e :: es.map (' ' :: ·) := by
+  induction es generalizing e with
+  | nil =>
+    simp only [joinStr, List.map_nil]
+    exact splitChar_no ',' e (h e (by simp)).1
+  | cons e2 es2 ih =>
+    simp only [joinStr, List.map_cons]
+    rw [List.append_assoc]
+    simp only [List.cons_append, List.nil_append]
+    rw [splitChar_append ',' e _ (h e (by simp)).1]
+    have h2 : ∀ x ∈ e2 :: es2, CommaElt x := fun x hx => h x (by simp [hx])
+    have := ih e2 h2
+    -- splitChar on ' ' :: joinStr … : the blank is not a comma
+    have hsp : splitChar ',' (' ' :: joinStr [',', ' '] (e2 :: es2)) = (' ' :: e2) :: es2.map (' ' :: ·) := by
+      simp only [splitChar, show ¬ ((' ' : Char) = ',') by decide, if_false, this]
+    rw [hsp]
+
+theorem commaPieces_rest (es : List Str) (h : ∀ x ∈ es, CommaElt x) :
+    commaPieces false (es.map (' ' :: ·)) = es := by
+  induction es with
+  | nil => rfl
+  | cons e es ih =>
+    have he := h e (by simp)
+    have ih' := ih (fun x hx => h x (by simp [hx]))
+    cases es with
+    | nil => simp [commaPieces, lstrip_space_cons, he.2.1]
+    | cons e2 es2 =>
+      simp only [List.map_cons] at ih' ⊢
+      simp only [commaPieces, Bool.false_eq_true, if_false, lstrip_space_cons, he.2.1, he.2.2, ih']
+
+theorem comma_roundtrip_aux (hj : Gen.Registry.commaJoin = [',', ' ']) (xs : List Str) (hne : xs ≠ [])
+    (h : ∀ e ∈ xs, CommaElt e) :
+    ListClass.set .comma (ListClass.str .comma xs) = xs := by
+  unfold ListClass.set ListClass.splitter ListClass.str
+  cases xs with
+  | nil => exact absurd rfl hne
+  | cons e es =>
+    simp only [List.isEmpty_cons, Bool.false_eq_true, if_false, ListClass.joiner, hj]
+    rw [splitChar_commaJoin e es h]
+    have hr := commaPieces_rest es (fun x hx => h x (by simp [hx]))
+    cases es with
+    | nil => simp [commaPieces]
+    | cons e2 es2 =>
+      simp only [List.map_cons] at hr ⊢
+      simp only [commaPieces, if_true, (h e (by simp)).2.2, hr]
+
 end C15
